@@ -80,8 +80,8 @@ pub fn convert_node(ast: &ASTTy, imp: &mut Imports, state: &State, ctx: &Context
         NodeTy::Str { lit, expressions } if expressions.is_empty() => Core::Str {
             string: lit.clone(),
         },
-        NodeTy::Str { lit, .. } => Core::FStr {
-            string: lit.clone(),
+        NodeTy::Str { lit, expressions } => Core::FStr {
+            string: interpolate(lit, &convert_vec(expressions, imp, state, ctx)?),
         },
 
         NodeTy::Undefined => Core::None,
@@ -441,6 +441,48 @@ fn skip_assign(core: &Core) -> bool {
 
 fn skip_return(core: &Core) -> bool {
     matches!(core, Core::Return { .. } | Core::Raise { .. })
+}
+
+/// Substitute the interpolated expressions of a string, which are Mamba source, with their
+/// Python counterparts.
+///
+/// Expressions are delimited exactly as the lexer delimits them.
+fn interpolate(lit: &str, expressions: &[Core]) -> String {
+    let (mut string, mut cur_expr) = (String::new(), String::new());
+    let (mut build_cur_expr, mut back_slash) = (0, false);
+    let mut expressions = expressions.iter();
+
+    for c in lit.chars() {
+        let in_expr = build_cur_expr > 0;
+        if !back_slash {
+            if c == '{' {
+                build_cur_expr += 1;
+            } else if c == '}' {
+                build_cur_expr -= 1;
+            }
+        }
+
+        if in_expr && build_cur_expr == 0 && !cur_expr.trim().is_empty() {
+            // Closing bracket of a non-empty expression
+            match expressions.next() {
+                Some(core) => string.push_str(format!("{core}").trim_end()),
+                None => string.push_str(&cur_expr),
+            }
+            cur_expr.clear();
+            string.push(c);
+        } else if in_expr && build_cur_expr > 0 {
+            cur_expr.push(c);
+        } else {
+            string.push_str(&cur_expr);
+            cur_expr.clear();
+            string.push(c);
+        }
+
+        back_slash = c == '\\';
+    }
+
+    string.push_str(&cur_expr);
+    string
 }
 
 #[cfg(test)]
